@@ -40,6 +40,9 @@ pub const SITES: &[(&str, usize, &str)] = &[
     ("sample-counts", 3, "([1, 2, 3].sample(2, [1, 1, 1]).len() + {K} - 2)"),
     ("regex", 4, "if(regex(\"a+b\").search(\"xaab\").has_value(), {K}, {K})"),
     ("regex-long-pattern", 4, "if(regex(\"a+b[0-9]*(x|y)?z{0,3}[^q]\").search(\"xaab12yzz!\").has_value(), {K}, {K})"),
+    // a malformed pattern is still handed to the regex compiler: no compilation attempt without the permission
+    ("regex-malformed", 4, "if(is_error(regex(\"(a+b\")), {K}, {K})"),
+    ("regex-bad-repetition", 4, "if(is_error(regex(\"a{5,2}\")), {K}, {K})"),
     ("display-str", 1, "(display(\"7777\").len() + {K} - 4)"),
     ("display-str-prefix", 1, "(display(\"7777\", \"\").len() + {K} - 4)"),
     ("display-bool-as-int", 1, "if(display({K} > 0 - 1), {K}, {K})"),
